@@ -224,6 +224,11 @@ def result_of(run, header, keep_ops):
         "violations": run.violations, "known_hits": run.known_hits, "other_alerts": run.other_alerts,
         "accepts": run.accepts, "rejects": run.rejects, "status": "ok",
     }
+    if getattr(run, "evals", None) is not None:
+        r["evals"] = run.evals
+        r["nontrivial_n"] = getattr(run, "nontrivial_n", 0)
+    if getattr(run, "narrow", None) and run.violations:
+        r["narrow_ops"] = run.narrow
     if keep_ops or run.violations:
         r["ops"] = run.ops
         r["header"] = header
@@ -391,6 +396,7 @@ def write_evidence(prop, tier, seed, level, results, wall, rule, assumptions, ex
     fps, digests, nontrivial = set(), set(), set()
     sim_time = 0.0
     steps = libcalls = 0
+    evals_override = nontrivial_override = 0
     per_world = Counter()
     for r in results:
         if r.get("status") != "ok":
@@ -403,6 +409,9 @@ def write_evidence(prop, tier, seed, level, results, wall, rule, assumptions, ex
         sim_time += r["sim_time"]
         steps += r["steps"]
         libcalls += r["libcalls"]
+        if "evals" in r:
+            evals_override += r["evals"]
+            nontrivial_override += r["nontrivial_n"]
         if r.get("nontrivial", (sum(r["faults"].values()) > 0 and r["accepts"] > 0 and r["rejects"] > 0)):
             nontrivial.add(r["digest"])
     n = sum(per_world.values())
@@ -421,6 +430,11 @@ def write_evidence(prop, tier, seed, level, results, wall, rule, assumptions, ex
         "faults_fired": dict(sorted(faults.items())),
         "probes": dict(sorted(probes.items())),
     }
+    if evals_override:
+        cov["scenarios"] = n
+        cov["scenarios_distinct_nontrivial"] = len(nontrivial)
+        cov["evaluations"] = evals_override
+        cov["distinct_nontrivial"] = nontrivial_override
     if extra:
         cov.update(extra)
     doc = {"property_id": prop, "tier": tier, "seed": int(seed), "level": level, "coverage": cov,
